@@ -17,22 +17,20 @@ Proof. exact answers_exec_correct. Qed.
 Theorem C01_complete : forall W D q row, qfree_opt (q_cond q) = true -> answer W D q row -> In row (run W D q).
 Proof. exact run_complete. Qed.
 
-(* nothing that violates the conditions is ever returned, and every row is one consistent assignment:
-   when no Union (or_ over different variable sets) sits under a negation, no variable is selected twice,
-   and no variable of the query has an empty domain *)
+(* nothing that violates the conditions is ever returned, and every row is one consistent assignment: for EVERY
+   quantifier-free query (any nesting, any selection -- the same variable may be selected several times, since 32abf51),
+   provided no variable of the query has an empty domain (finding C01-e) *)
 Theorem C01_sound : forall W D q row,
-  snd_ok_opt (q_cond q) = true ->
-  NoDup (flat_map opnd_vars (q_sels q)) ->
+  qfree_opt (q_cond q) = true ->
   (forall x, In x (query_vars q) -> D x <> []) ->
   In row (run W D q) -> answer W D q row.
-Proof. exact run_sound. Qed.
+Proof. exact run_sound_qfree. Qed.
 
 Theorem C01_sound_complete : forall W D q,
-  snd_ok_opt (q_cond q) = true ->
-  NoDup (flat_map opnd_vars (q_sels q)) ->
+  qfree_opt (q_cond q) = true ->
   (forall x, In x (query_vars q) -> D x <> []) ->
   forall row, In row (run W D q) <-> answer W D q row.
-Proof. exact run_exact. Qed.
+Proof. exact run_exact_qfree. Qed.
 
 (* the condition-level invariant behind both: results are a cylinder cover of the assignment space *)
 Theorem C01_cover_complete : forall W D c, qfree c = true -> forall b rho,
@@ -41,19 +39,18 @@ Theorem C01_cover_complete : forall W D c, qfree c = true -> forall b rho,
 Proof. exact eval_complete. Qed.
 
 Theorem C01_cover_sound : forall W D c pol b b',
-  snd_ok pol c = true -> In (b', negb pol) (eval W D c b) ->
+  qfree c = true -> In (b', negb pol) (eval W D c b) ->
   forall rho, extends rho b' -> sat W D rho c = pol.
-Proof. exact eval_sound. Qed.
+Proof. exact eval_sound_qfree. Qed.
 
 (* ---- with exists / for_all ----
    [wfq]: every quantified variable is quantified once and occurs nowhere outside its quantifier;
    [ok TS [] c] / [ok TC [] c]: static side conditions under which true results tell the truth / every satisfying
-   assignment is covered: no Union below a negation, no quantifier where its FALSE outcome is needed (quantifiers
-   never yield one), every for_all over a quantifier-free, Union-positive condition whose other variables are
-   certainly bound when it is evaluated (must-bind analysis [mb]). *)
+   assignment is covered: no quantifier where its FALSE outcome is needed (quantifiers never yield one), every for_all
+   over a quantifier-free condition whose other variables are certainly bound when it is evaluated (must-bind
+   analysis [mb]). *)
 Theorem C01_q_sound_complete : forall W D q c,
   q_cond q = Some c -> wfq c = true -> ok TS [] c = true -> ok TC [] c = true ->
-  NoDup (flat_map opnd_vars (q_sels q)) ->
   (forall x, In x (flat_map opnd_vars (q_sels q)) -> ~ In x (qvars c)) ->
   (forall x, In x (cond_vars c ++ flat_map opnd_vars (q_sels q)) -> D x <> []) ->
   forall row, In row (run W D q) <-> answer W D q row.
@@ -75,26 +72,29 @@ Theorem C01_fragment_flag : forall c, case_in_F01 c = true ->
               answer (mk_world (e_world c)) (mk_domains (e_doms c)) (e_query c) row.
 Proof. exact case_in_F01_exact. Qed.
 
-(* ---- outside the fragment the full statement is false of the faithful model: concrete witnesses ---- *)
-(* an(set_of([x, y], not_(or_(x.a == 0, y.a == 0)))): Union under Not returns rows with x.a == 0 *)
+(* ---- regressions: the witnesses of two repaired defects now lie inside the proved fragment and meet the Spec ---- *)
+(* an(set_of([x, y], not_(or_(x.a == 0, y.a == 0)))): before 6dfdafd Union under Not returned rows with x.a == 0 *)
 Definition w_notunion : ecase :=
   {| e_world := [(1, 1, [(0%nat, VI 0)]); (2, 2, [(0%nat, VI 1)])]%Z;
      e_doms := [(0%nat, [VO 1; VO 2]); (1%nat, [VO 1; VO 2])]%Z;
      e_query := {| q_sels := [OVar 0; OVar 1];
                    q_cond := Some (mk_not (mk_or (CCmp OpEq (OAttr (OVar 0) 0) (OLit (VI 0)))
                                                  (CCmp OpEq (OAttr (OVar 1) 0) (OLit (VI 0))))) |} |}.
-Theorem C01_refuted_notunion :
-  snd_ok_opt (q_cond (e_query w_notunion)) = false /\ model_differs_as_set w_notunion = true.
+Example C01_fixed_notunion : case_in_F01 w_notunion = true /\ model_differs_as_set w_notunion = false.
 Proof. split; vm_compute; reflexivity. Qed.
 
-(* an(set_of([x, x.a])) with x not bound by any condition: independent product of the selected expressions *)
+(* an(set_of([x, x.a])) with x not bound by any condition: before 32abf51 the independent product of the selected
+   expressions ([select_product], the previous code) returned the cross product *)
 Definition w_selprod : ecase :=
   {| e_world := [(1, 1, [(0%nat, VI 0)]); (2, 2, [(0%nat, VI 1)])]%Z;
      e_doms := [(0%nat, [VO 1; VO 2])]%Z;
      e_query := {| q_sels := [OVar 0; OAttr (OVar 0) 0]; q_cond := None |} |}.
-Theorem C01_refuted_selprod : model_differs_as_set w_selprod = true.
-Proof. vm_compute; reflexivity. Qed.
+Example C01_fixed_selprod :
+  case_in_F01 w_selprod = true /\ model_differs_as_set w_selprod = false /\
+  length (select_product (mk_world (e_world w_selprod)) (mk_domains (e_doms w_selprod)) (q_sels (e_query w_selprod)) []) = 4.
+Proof. split; [|split]; vm_compute; reflexivity. Qed.
 
+(* ---- outside the fragment the full statement is false of the faithful model: concrete witness ---- *)
 (* an(entity(x, or_(x.a == 1, y.a == 1))) with y over an empty domain: x is returned although no assignment of y exists *)
 Definition w_emptydom : ecase :=
   {| e_world := [(1, 1, [(0%nat, VI 1)])]%Z;
@@ -115,13 +115,11 @@ Definition w_ok : ecase :=
                                           (mk_or (CCmp OpEq (OAttr (OVar 0) 0) (OLit (VI 0)))
                                                  (CCmp OpGe (OAttr (OVar 1) 1) (OLit (VI 1))))) |} |}.
 Example C01_nonvacuous :
-  snd_ok_opt (q_cond (e_query w_ok)) = true /\
-  NoDup (flat_map opnd_vars (q_sels (e_query w_ok))) /\
+  qfree_opt (q_cond (e_query w_ok)) = true /\
   model_differs_as_set w_ok = false /\
   spec_rows w_ok <> SL [].
 Proof.
-  split; [vm_compute; reflexivity|]. split; [repeat constructor; simpl; intuition discriminate|].
-  split; [vm_compute; reflexivity|]. vm_compute. discriminate.
+  split; [vm_compute; reflexivity|]. split; [vm_compute; reflexivity|]. vm_compute. discriminate.
 Qed.
 
 (* non-vacuity with quantifiers: x such that some y is larger, and no z is smaller than x.b (for_all closed by x.a >= 0) *)
@@ -146,6 +144,4 @@ Print Assumptions C01_q_sound_complete.
 Print Assumptions C01_q_cover.
 Print Assumptions C01_q_conservative.
 Print Assumptions C01_fragment_flag.
-Print Assumptions C01_refuted_notunion.
-Print Assumptions C01_refuted_selprod.
 Print Assumptions C01_refuted_emptydom.
